@@ -139,6 +139,7 @@ def r172(ctx, api):
 def r173(ctx, api):
     r175(ctx)
     r176(ctx)
+    r177(ctx)
     from . import c20 as _c20
     _c20.r202(ctx)
     from . import c14, meta_rules, c01
@@ -227,3 +228,13 @@ def r176(ctx, rule='R17.6'):
            api.loc(direct[0]) if direct else api.loc(f))
     guard = [x for x in walk_no_nested(f) if isinstance(x, ast.If) and "'datetime64' in" in norm(x.test)]
     ctx.ob(rule, 'api._dtypes:datetime-resolution-override-is-guarded', len(guard) == 1, '', api.loc(f))
+
+
+def r177(ctx, rule='R17.7'):
+    """_dtypes looks a column's statistics up in the chunk of that column (by path), never by the column's position
+    among the top-level fields - nested columns have several chunks"""
+    api = ctx.repo['api']
+    f = api.func('ParquetFile._dtypes')
+    pos = [x for x in walk_no_nested(f) if isinstance(x, ast.Subscript) and norm(x.value) == 'rg[1]' and isinstance(x.slice, ast.Name)]
+    ctx.ob(rule, 'api._dtypes:chunk-statistics-found-by-column-path', not pos and "c[3][3] == [col]" in norm(ast.Module(body=f.body, type_ignores=[])),
+           'positional look-ups: %s' % [norm(x) for x in pos], api.loc(f))
